@@ -105,7 +105,7 @@ def on_extent(p, r, exc, acc):
 
 
 # ------------------------------------------------------------------ (b) composition of the pipeline
-CONCRETE_FILTERS = ["n", "h", "trim", "entity", "str", "unicode", "decode.utf8", "ff", "gg(1)", "ns.ff(aa, bb)"]
+CONCRETE_FILTERS = ["n", "h", "trim", "entity", "str", "unicode", "decode.utf8", "ff", "gg(1)", "ns.ff(aa, bb)", "gg((-2) ** 2)"]
 DEFAULTS = [None, [], ["str"], ["ff"], ["ff", "h"]]          # None = not configured -> ['str']
 PAGE = [None, [], ["h"], ["n"], ["gg(1)", "n"], ["ff", "trim"]]
 TABLE = {"x": "filters.xml_escape", "h": "filters.html_escape", "u": "filters.url_escape", "trim": "filters.trim",
@@ -184,11 +184,22 @@ def on_compose(p, r, exc, acc):
     m = p.witness()
     cfg = lambda mod: dict(local=[conc(f, mod) for f in r["local"]], default_filters=r["d"], page_expression_filter=r["pg"], is_expression=r["is_expr"])
     acc.vcs += 1
-    st, mod = p.vc(str_eq_term(out, exp))
-    if st == "fails":
-        acc.candidate(kind="pipeline-order", input=cfg(mod), detail="emitted %r, documented %r" % (out.concretize(mod), exp.concretize(mod)))
-    elif st == "unknown":
-        acc.vcs_unknown += 1
+    oc, ec = out.concrete_or_none(), exp.concrete_or_none()
+    if oc is not None and ec is not None:
+        # concrete on this path: the emitted expression may differ in redundant parentheses, not in meaning
+        import ast as _ast
+        try:
+            same = _ast.dump(_ast.parse(oc, mode="eval")) == _ast.dump(_ast.parse(ec, mode="eval"))
+        except SyntaxError:
+            same = oc == ec
+        if not same:
+            acc.candidate(kind="pipeline-order", input=cfg(m), detail="emitted %r, documented %r" % (oc, ec))
+    else:
+        st, mod = p.vc(str_eq_term(out, exp))
+        if st == "fails":
+            acc.candidate(kind="pipeline-order", input=cfg(mod), detail="emitted %r, documented %r" % (out.concretize(mod), exp.concretize(mod)))
+        elif st == "unknown":
+            acc.vcs_unknown += 1
     # concrete replay through a real Template with tagging, non-commuting filters
     if r["is_expr"]:
         real = realproc.call("pipeline_render", cfg(m))
